@@ -204,6 +204,14 @@ def mul(a, b):
     return num(a) * num(b)
 
 
+def nsum(xs):
+    """the operation of a function-wrapped view (jug.task.Tasklet(base, f)): applied to the *value* of the base"""
+    return ['nsum', num(xs), canon(xs)]
+
+
+nsum.__module__ = __name__
+
+
 RAW = {n: globals()[n] for n in ('const', 'mk', 'pair', 'add', 'use', 'mkdict', 'inc', 'idx', 'arr', 'asq', 'nil')}
 
 
@@ -217,7 +225,7 @@ def jug_namespace():
     from jug.hash import hash_one
     ns = {n: TaskGenerator(f) for n, f in RAW.items()}
     ns.update(dict(Task=Task, iteratetask=iteratetask, jmap=jmap, mapreduce=mapreduce, currymap=currymap, jreduce=jreduce,
-                   identity=identity, CustomHash=CustomHash, NoHash=NoHash, hash_one=hash_one, return_tuple=return_tuple,
+                   identity=identity, CustomHash=CustomHash, NoHash=NoHash, hash_one=hash_one, return_tuple=return_tuple, Tasklet=__import__('jug.task').task.Tasklet, nsum=nsum,
                    dbl=dbl, wrap=wrap, cat=cat, mul=mul, Pt=Pt, OD=OD, LL=LL, same=TaskGenerator(same), np=__import__('numpy'),
                    pair2=return_tuple(3)(TaskGenerator(RAW['pair']))))
     return ns
@@ -241,7 +249,7 @@ def plain_namespace():
     def jreduce(r, xs, reduce_step=8):
         return functools.reduce(r, list(xs)) if xs else []
     ns.update(dict(Task=lambda f, *a, **k: f(*a, **k), iteratetask=lambda t, n: [t[i] for i in range(n)], jmap=jmap, mapreduce=mapreduce,
-                   currymap=currymap, jreduce=jreduce, identity=lambda x: x, CustomHash=lambda x, h: x, NoHash=lambda x: x,
+                   currymap=currymap, jreduce=jreduce, identity=lambda x: x, CustomHash=lambda x, h: x, NoHash=lambda x: x, Tasklet=lambda base, f: f(base), nsum=nsum,
                    hash_one=lambda x: b'', return_tuple=lambda n: (lambda f: f), dbl=dbl, wrap=wrap, cat=cat, mul=mul, pair2=RAW['pair'], Pt=Pt, OD=OD, LL=LL, same=same, np=__import__('numpy')))
     return ns
 
